@@ -59,6 +59,7 @@ class Origin:
     where: str  # file:line
     text: str  # normalised statement text
     what: str  # human description
+    fld: str = ""  # attribute of the mutated object that is written, when known
 
     def key(self):
         return (self.func, self.text)
@@ -73,9 +74,10 @@ class Summary:
     ret_holds: Set[Tuple[str, int, int, int, Optional[str]]] = field(default_factory=set)  # (under attr, at depth, param, depth, first attr)
     stores: Set[Tuple[int, str, int, int, int, Optional[str]]] = field(default_factory=set)  # (into j, under attr, at depth, from i, depth, first attr)
     gmut: Dict[Tuple, Origin] = field(default_factory=dict)
+    escapes: Dict[Tuple, Tuple[int, int, str, str]] = field(default_factory=dict)  # (param, depth, callee, where)
 
     def size(self) -> int:
-        return sum(len(v) for v in self.mut.values()) + len(self.ret) + len(self.ret_holds) + len(self.stores) + len(self.gmut) + int(self.ret_fresh) + int(self.ret_container)
+        return sum(len(v) for v in self.mut.values()) + len(self.ret) + len(self.ret_holds) + len(self.stores) + len(self.gmut) + len(self.escapes) + int(self.ret_fresh) + int(self.ret_container)
 
 
 class Frame:
@@ -321,6 +323,7 @@ class Exec:
     def mutate(self, v: Value, node, what: str, attr: Optional[str] = None):
         """the objects in v are themselves modified (their field `attr`)"""
         org = self.origin(node, what)
+        org.fld = attr or ""
         for t in v:
             self.mutate_token(t, 0, attr, org)
 
@@ -862,6 +865,7 @@ class Exec:
                 an.calls_resolved += 1
                 return self.external(r[1], args, kwargs, c)
             self._unres(name)
+            self.escape(f"<unresolved {name}>", args, kwargs, c)
             return self.fresh(c, kind="unknown")
 
         if isinstance(f, ast.Attribute):
@@ -1045,14 +1049,24 @@ class Exec:
             self.store(obj, "*", frozenset(hv))
         return obj
 
+    def escape(self, name: str, args, kwargs, node):
+        for v in list(args) + list(kwargs.values()):
+            for t in v:
+                if t[0] == "P":
+                    k = (t[1], t[2], name)
+                    if k not in self.fr.summary.escapes and len(self.fr.summary.escapes) < 60:
+                        self.fr.summary.escapes[k] = (t[1], t[2], name, self.fi.loc(node))
+
     def external(self, name: str, args, kwargs, node) -> Value:
         last = name.split(".")[-1]
+        if not (last == "deepcopy" or name.startswith("ast.") or name.startswith("typing.") or last in ("copy", "partial", "reduce", "getsource", "isclass", "cast", "get_args")):
+            self.escape(name, args, kwargs, node)
         if last == "deepcopy":
             return self.fresh(node, kind="object")
         if name == "copy.copy" or (last == "copy" and name.startswith("copy")):
             hv = set()
             for a in args:
-                hv |= self.deepen(a, "*")
+                hv |= self.deepen(a, "<fields>")
             return self.fresh(node, frozenset(hv), "shallow")
         if name in ("ast.fix_missing_locations", "ast.increment_lineno", "ast.copy_location") and args:
             self.mutate(args[0], node, f"{name} writes positions into the tree", "*")
@@ -1121,4 +1135,10 @@ class Exec:
             out |= obj
         for org_k, org in s.gmut.items():
             self.fr.summary.gmut.setdefault(org_k, org)
+        for (pi, d, name), (_, _, _, where) in s.escapes.items():
+            for t in actual.get(pi, EMPTY):
+                if t[0] == "P":
+                    k = (t[1], min(t[2] + d, 2), name)
+                    if k not in self.fr.summary.escapes and len(self.fr.summary.escapes) < 60:
+                        self.fr.summary.escapes[k] = (t[1], min(t[2] + d, 2), name, where)
         return frozenset(out)
